@@ -75,13 +75,4 @@ theorem doc_covers_all_pairs : ∀ a ∈ geoTypes, ∀ b ∈ geoTypes, (docFor a
 /-- every documented row allows `None`, and never documents a result of higher dimension than an operand -/
 theorem doc_rows_allow_none : ∀ r ∈ docRows, ResTy.none ∈ r.2.2 := by decide
 
-def resTyOf : Option Obj → ResTy
-  | none => .none
-  | some (.flat (.point _)) => .point
-  | some (.flat (.line _)) => .line
-  | some (.flat (.plane _)) => .plane
-  | some (.flat (.seg _)) => .seg
-  | some (.flat (.halfline _)) => .halfline
-  | some (.polygon _) => .polygon
-  | some (.polyhedron _) => .polyhedron
 end G3D.Props.C04
